@@ -79,6 +79,13 @@ func c12Scenarios(thorough bool) []*c12Scenario {
 		{Name: "update;read||update", Clients: [][]*Stmt{{up("u1", 1, 2), rd(1, 4)}, {up("u2", 2, 3)}}},
 		// a statement that fails (unknown table) next to good ones: each caller gets the answer to ITS statement
 		{Name: "ddl/create(ta);insert;read||create(tb);insert;read", DDL: true},
+		// a multi-row INSERT next to a reader of the table's tail: the reader sees none or all of the new rows
+		{Name: "insert[11,12]||scan-read[>=10]", Clients: [][]*Stmt{
+			{{Kind: "insert", Table: "t", Cols: []string{"k", "v"}, Rows: [][]any{{k(11), "n1"}, {k(12), "n2"}}}},
+			{{Kind: "select", Table: "t", Cols: []string{"k", "v"}, Where: ForceScan(Leaf{"k", ">=", k(10)})}}}},
+		{Name: "insert[11,12]||index-read[>=10]", Clients: [][]*Stmt{
+			{{Kind: "insert", Table: "t", Cols: []string{"k", "v"}, Rows: [][]any{{k(11), "n1"}, {k(12), "n2"}}}},
+			{{Kind: "select", Table: "t", Cols: []string{"k", "v"}, Where: Leaf{"k", ">=", k(10)}}}}},
 		// the heap grows: both inserts find the last page full
 		{Name: "grow/wide-insert||wide-insert", Wide: true, Clients: [][]*Stmt{
 			{{Kind: "insert", Table: "t", Cols: []string{"k", "v"}, Rows: [][]any{{k(11), bigStr("A", 600)}}}},
@@ -239,6 +246,9 @@ func (sc *c12Scenario) build(bound int) *core.Scenario {
 				out := strings.Join(outcome, " ") + " => " + strings.ReplaceAll(final, "\n", "/")
 				// strip the logical times from the outcome label (they vary with the schedule)
 				label := c12Label(calls) + " => " + strings.ReplaceAll(final, "\n", "/")
+				if d := indexBattery(db, "t", fin.Rows, nil); d != "" {
+					return mk("index-disagrees-with-table-afterwards", d), "index-mismatch"
+				}
 				if !c12Linearizable(sc.seed(), calls, final) {
 					return mk("not-linearizable", "results and final table are not those of any serial order of the calls that respects real time:\n  "+out), label
 				}
@@ -427,7 +437,7 @@ func init() {
 		},
 		Assume: []string{
 			"the `go` statements and channel operations of lib/samehada/{request_manager,samehada}.go are rewritten (go/ast, at check time, from the current tree) to scheduler calls with the same semantics: unbuffered channels rendezvous, the request channel keeps its capacity of 100",
-			"workloads do not add or remove rows (reads and multi-row updates over overlapping key ranges of a 4-row table, unique written values)",
+			"serial-order clause: reads and multi-row updates over overlapping key ranges of a 4-row table, unique written values; inserts only where the read predicate makes the comparison phantom-free in both orders (a reader of the tail next to one multi-row INSERT: it sees none or all of the new rows)",
 			"aborted statements are retried by the RequestManager until they succeed, so the schedule space is cyclic: deviations from the default choice (lowest thread id) at points where the running thread blocked or finished are bounded by 2 per schedule (preferring the retrying worker over the worker it conflicts with for ever is an unfair schedule); preemptions are bounded separately; horizon 200000 points",
 			"atomics are not scheduling points; RW-latches without writer preference; conflict-directed preemption points",
 		},
